@@ -129,3 +129,46 @@ Theorem C06_glue_adaptive_points : forall gpow lx ly n a, (0 <= a)%Z ->
 Proof. exact glue_adaptive_points. Qed.
 Print Assumptions C06_glue_adaptive_points.
 Close Scope string_scope.
+
+(* ==================================================================================================== *)
+(** CONSTRUCTORS regenerated by tools/translate_ext_ctors.py (Gen/CtorsGlue.v); leaves and the meaning of `super().__init__`:
+    Model/GlueLeaves_Ctors.v.  [rfa_construct cls actuals] = cls(actuals): (the object's attributes "self.attr" |-> value, most recently
+    assigned first; how the constructor ended);  [new_then_rfa pw gpow sf cls actuals] = cls(actuals).rfa();
+    [st_call loadtxt m actuals] = Weaver.m(actuals) for a static constructor m ([loadtxt]: what np.loadtxt reads). *)
+From Coq Require Import Lia Bool.
+From TW Require Import Model.GlueLeaves_Ctors Gen.CtorsGlue Gen.RfaGlue Proofs.GlueCtorsRfaProofs.
+Open Scope Qc_scope.
+Open Scope string_scope.
+
+Theorem C06_glue_linear_adaptive_init : forall vx vy lx ly n alpha a vsmooth,
+  to_array vx = Ok (VArr lx) -> to_array vy = Ok (VArr ly) -> (2 <= n)%Z ->
+  rfa_construct "LinearAdaptiveRFA" [("x", vx); ("y", vy); ("n", VInt n); ("alpha", VNum alpha); ("a", optQ a); ("adaptive_smooth", vsmooth)] =
+  ([("self.adaptive_smooth", vsmooth); ("self.a", VInt (window_a (Z.to_nat n) alpha a));
+    ("self.n", VInt n); ("self.y", VArr ly); ("self.x", VArr lx)], ONormal).
+Proof. exact glue_linear_adaptive_init. Qed.
+Print Assumptions C06_glue_linear_adaptive_init.
+
+Theorem C06_glue_exp_adaptive_init : forall vx vy lx ly n alpha a vbeta vsmooth vexp,
+  to_array vx = Ok (VArr lx) -> to_array vy = Ok (VArr ly) -> (2 <= n)%Z ->
+  rfa_construct "ExpAdaptiveRFA" [("x", vx); ("y", vy); ("n", VInt n); ("alpha", VNum alpha); ("beta", vbeta); ("a", optQ a);
+                                  ("adaptive_smooth", vsmooth); ("exp", vexp)] =
+  ([("self.exp", vexp); ("self.adaptive_smooth", vsmooth); ("self.beta", vbeta); ("self.a", VInt (window_a (Z.to_nat n) alpha a));
+    ("self.n", VInt n); ("self.y", VArr ly); ("self.x", VArr lx)], ONormal).
+Proof. exact glue_exp_adaptive_init. Qed.
+Print Assumptions C06_glue_exp_adaptive_init.
+
+(** adaptive_smooth / exp are caller-supplied values whose meaning is [gpow] / [pw] *)
+Theorem C06_glue_linear_adaptive_ctor_then_rfa : forall pw gpow x y n alpha a,
+  outcome_arr_pair (new_then_rfa pw gpow (fun t => t) "LinearAdaptiveRFA"
+     [("x", VArr x); ("y", VArr y); ("n", VInt n); ("alpha", VNum alpha); ("a", optQ a); ("adaptive_smooth", VOpaque "adaptive_smooth")])
+  = rfa pw gpow (LinearAdaptive alpha a) x y n.
+Proof. exact glue_linear_adaptive_ctor_then_rfa. Qed.
+Print Assumptions C06_glue_linear_adaptive_ctor_then_rfa.
+
+Theorem C06_glue_exp_adaptive_ctor_then_rfa : forall pw gpow x y n alpha beta a,
+  outcome_arr_pair (new_then_rfa pw gpow (fun t => t) "ExpAdaptiveRFA"
+     [("x", VArr x); ("y", VArr y); ("n", VInt n); ("alpha", VNum alpha); ("beta", VNum beta); ("a", optQ a);
+      ("adaptive_smooth", VOpaque "adaptive_smooth"); ("exp", VOpaque "exp")])
+  = rfa pw gpow (ExpAdaptive alpha beta a) x y n.
+Proof. exact glue_exp_adaptive_ctor_then_rfa. Qed.
+Print Assumptions C06_glue_exp_adaptive_ctor_then_rfa.
